@@ -88,6 +88,7 @@ type Macro struct {
 // as an uninterpreted function with a definitional axiom triggered on its
 // applications, so that solvers unfold it only where it is mentioned.
 type Pred struct {
+	Ret    string // "Bool" for predicates, "Int" for recursive integer functions (recfun)
 	Name   string
 	Params []string
 	Sorts  []string
@@ -141,14 +142,14 @@ func newSpecLib() *SpecLib {
 	return &SpecLib{Contracts: map[string]*Contract{}, Macros: map[string]*Macro{}, UFs: map[string]*UFDecl{}, Types: map[string]*TypeSpec{}, Preds: map[string]*Pred{}}
 }
 
-var propRe = regexp.MustCompile(`^\[([A-Z0-9, ]+)\]\s*`)
+var propRe = regexp.MustCompile(`^\[([A-Za-z0-9, ]+)\]\s*`)
 
 var keywords = map[string]bool{
 	"func": true, "type": true, "requires": true, "ensures": true, "modifies": true, "invariant": true,
 	"decreases": true, "loop": true, "mode": true, "inline": true, "assume-contract": true, "pure": true,
 	"let": true, "define": true, "declare": true, "axiom": true, "lemma": true, "owned": true, "model": true,
 	"global": true, "nosafety": true, "assert": true, "split": true, "guarded_by": true, "ghostparam": true,
-	"fresh-result": true, "use": true, "exports": true, "rawaxiom": true, "stamp": true, "defpred": true,
+	"fresh-result": true, "use": true, "exports": true, "rawaxiom": true, "stamp": true, "defpred": true, "recfun": true,
 }
 
 // rewriteImplies turns the infix "A ==> B" (lowest precedence, right
@@ -539,7 +540,7 @@ func (lib *SpecLib) loadFile(path, pkgPath string) error {
 				return err
 			}
 			lib.Macros[m.Name] = m
-		case "defpred":
+		case "defpred", "recfun":
 			re := regexp.MustCompile(`^(\w+)\((.*?)\)\s*=\s*(.+)$`)
 			m := re.FindStringSubmatch(it.rest)
 			if m == nil {
@@ -549,11 +550,14 @@ func (lib *SpecLib) loadFile(path, pkgPath string) error {
 			if err != nil {
 				return err
 			}
-			pr := &Pred{Name: m[1], Body: e, Text: m[3], Where: it.where}
+			pr := &Pred{Name: m[1], Body: e, Text: m[3], Where: it.where, Ret: "Bool"}
+			if it.kw == "recfun" {
+				pr.Ret = "Int"
+			}
 			for _, p := range splitTop(m[2], ',') {
 				kv := strings.SplitN(p, ":", 2)
 				if len(kv) != 2 {
-					return fmt.Errorf("%s: defpred parameter needs a sort: %q", it.where, p)
+					kv = []string{p, "Int"}
 				}
 				pr.Params = append(pr.Params, strings.TrimSpace(kv[0]))
 				pr.Sorts = append(pr.Sorts, strings.TrimSpace(kv[1]))
